@@ -73,6 +73,7 @@ type Scenario struct {
 	WarmBig  bool         `json:"warmbig"`  // the warm-up makes the estimator believe in a huge network
 	NAddrs   int          `json:"naddrs"`   // number of host addresses (0/1 = one, -1 = none)
 	AddrDrop []int        `json:"addrdrop"` // indices of host addresses removed by the address filter
+	SlowCons bool         `json:"slowcons"` // the consumer of the result channel is scheduled like any other actor
 	Honest   bool         `json:"honest"`  // every peer answers with the K nearest peers of a k-bucket-complete table
 	Full     bool         `json:"full"`    // honest and every peer knows every other peer
 }
@@ -138,6 +139,7 @@ type lookupEnv struct {
 	start  time.Time
 	reject map[peer.ID]bool
 	quiet  bool // warm-up phase: nothing is logged
+	fastCons bool // the slow consumer has been switched off (after a cancellation)
 	dstore ds.Batching
 	hostAddrs []ma.Multiaddr
 	target    peer.ID
@@ -265,7 +267,7 @@ func buildLookupEnv(t *testing.T, sc *Scenario) *lookupEnv {
 		return v.(error)
 	}
 	e.gate.OnPark = func(it *sim.Parked) {
-		if e.quiet {
+		if e.quiet || it.Kind == "consume" {
 			return
 		}
 		switch it.Kind {
